@@ -47,13 +47,19 @@ impl Drop for RawOwner {
 
 /// custom owner that keeps another buffer alive (what an imported FFI array does)
 struct Holder {
-    #[allow(dead_code)]
     buf: Buffer,
     drops: Arc<AtomicUsize>,
 }
 impl Drop for Holder {
     fn drop(&mut self) {
         self.drops.fetch_add(1, Ordering::SeqCst);
+    }
+}
+
+struct HolderBytes(Holder);
+impl AsRef<[u8]> for HolderBytes {
+    fn as_ref(&self) -> &[u8] {
+        self.0.buf.as_slice()
     }
 }
 
@@ -102,6 +108,7 @@ struct Exec {
     good_ops: usize,
 }
 
+const RT_KINDS: usize = 2;
 const NPOOLS: usize = 3;
 const HOWS: usize = 3;
 /// `used()` of every pool, `a.b.c`
@@ -118,8 +125,15 @@ fn digest(b: &[u8]) -> u64 {
 fn show_slot(s: &Slot) -> String {
     match s {
         Slot::Empty => "e".into(),
-        Slot::Buf(b, _) => format!("b{}.{}", b.len(), digest(b.as_slice())),
-        Slot::Mut(m, _) => format!("m{}.{}", m.len(), digest(m.as_slice())),
+        Slot::Buf(b, _) => format!(
+            "b{}.{}.c{}.o{}.k{}",
+            b.len(),
+            digest(b.as_slice()),
+            b.strong_count(),
+            b.ptr_offset(),
+            b.capacity()
+        ),
+        Slot::Mut(m, _) => format!("m{}.{}.k{}", m.len(), digest(m.as_slice()), m.capacity()),
         Slot::Ffi(..) => "x".into(),
     }
 }
@@ -188,13 +202,110 @@ impl Exec {
         std::mem::replace(&mut self.slots[i], Slot::Empty)
     }
 
+    /// a length-changing `MutableBuffer` call.  Known finding (`finding:mutlen-claimed`):
+    /// `truncate` / `resize` / `clear` resize a claimed reservation to `len` although the capacity
+    /// says otherwise.  The deviation is reported on its own (oracle) and the capacity-based
+    /// reservation is restored so that the rest of the history is still compared exactly.
+    fn len_op(&mut self, i: usize, name: &str, f: impl FnOnce(&mut MutableBuffer)) -> Option<&'static str> {
+        let mut drift: Option<(String, String)> = None;
+        let hit;
+        match self.slots.get_mut(i) {
+            Some(Slot::Mut(m, r)) => {
+                hit = self.claimed[*r];
+                let before = used_all(&self.pools);
+                let cap_before = m.capacity();
+                f(m);
+                if let Some(p) = hit {
+                    // what the pools must show: only the capacity change of this region
+                    let mut want: Vec<usize> = before.split('.').map(|x| x.parse().unwrap()).collect();
+                    want[p] = want[p] + m.capacity() - cap_before;
+                    let want = want.iter().map(|x| x.to_string()).collect::<Vec<_>>().join(".");
+                    let after = used_all(&self.pools);
+                    if after != want {
+                        drift = Some((want, after));
+                        m.claim(&self.pools[p]);
+                    }
+                }
+            }
+            _ => return None,
+        }
+        if hit.is_some() {
+            self.tag(&format!("{}:claimed", name));
+        }
+        if let Some((want, got)) = drift {
+            self.oracle.push(format!(
+                "KNOWN:finding:{}|MutableBuffer::{} on a claimed buffer left the pools at {} where the capacities say {}",
+                if name == "ms" { "mutshrink0-claimed" } else { "mutlen-claimed" },
+                match name { "tr" => "truncate", "rs" => "resize", "ms" => "shrink_to_fit", _ => "clear" }, got, want
+            ));
+        }
+        Some("ok")
+    }
+
+    /// read-only round trips through other owners of the same memory, dropped again before
+    /// returning: nothing observable may change
+    fn round_trip(&mut self, bufs: Vec<Buffer>, kind: usize) {
+        let _ = kind;
+        for b in bufs.iter().filter(|b| !b.is_empty()) {
+            let expect = b.as_slice().to_vec();
+            let sc = b.strong_count();
+            // Buffer → bytes::Bytes (owner = the buffer) → sub-slice → Buffer (owner = the bytes)
+            let by: bytes::Bytes = bytes::Bytes::from(b.clone());
+            let mid = by.len() / 2;
+            let back = Buffer::from(by.slice(mid..));
+            drop(by);
+            if back.as_slice() != &expect[mid..] || b.strong_count() != sc + 1 {
+                self.oracle.push("bytes::Bytes round trip: content or count wrong".into());
+            }
+            if back.clone().into_mutable().is_ok() {
+                self.oracle.push("a buffer owned by bytes::Bytes was made mutable".into());
+            }
+            drop(back);
+            if b.strong_count() != sc {
+                self.oracle.push("bytes::Bytes round trip leaked a reference".into());
+            }
+        }
+        self.tag("rt:bytes");
+        if kind == 1 {
+            // C Stream Interface: export a reader over two batches of these columns, import every
+            // batch through ArrowArrayStreamReader, compare, drop everything
+            let counts: Vec<usize> = bufs.iter().map(|b| b.strong_count()).collect();
+            let fields: Vec<Field> = (0..bufs.len()).map(|k| Field::new(format!("c{k}"), DataType::UInt8, false)).collect();
+            let schema = Arc::new(arrow_schema::Schema::new(fields));
+            let cols: Vec<ArrayRef> = bufs.iter().map(|b| Arc::new(u8_array(b.clone())) as ArrayRef).collect();
+            let batch = arrow_array::RecordBatch::try_new(schema.clone(), cols).expect("batch");
+            let reader = arrow_array::RecordBatchIterator::new(vec![Ok(batch.clone()), Ok(batch.slice(0, batch.num_rows() / 2))], schema);
+            let stream = arrow_array::ffi_stream::FFI_ArrowArrayStream::new(Box::new(reader));
+            let imported: Vec<arrow_array::RecordBatch> =
+                arrow_array::ffi_stream::ArrowArrayStreamReader::try_new(stream).expect("stream").map(|b| b.expect("batch")).collect();
+            if imported.len() != 2 || imported[0] != batch || imported[1] != batch.slice(0, batch.num_rows() / 2) {
+                self.oracle.push("C stream round trip: imported batches differ from the exported ones".into());
+            }
+            // imported columns are custom-owned: never mutable in place
+            for c in imported[0].columns() {
+                let d = c.to_data();
+                if !d.buffers()[0].is_empty() && d.buffers()[0].clone().into_mutable().is_ok() {
+                    self.oracle.push("an imported stream buffer was made mutable".into());
+                }
+            }
+            drop(batch);
+            drop(imported);
+            let after: Vec<usize> = bufs.iter().map(|b| b.strong_count()).collect();
+            if after != counts {
+                self.oracle.push(format!("C stream round trip leaked references: {:?} -> {:?}", counts, after));
+            }
+            self.tag("rt:stream");
+        }
+    }
+
     /// slots an op consumes / overwrites (mirror of `Op.targets` in the Lean model)
     fn targets(f: &[&str]) -> Vec<usize> {
         let us = |k: usize| f.get(k).and_then(|x| x.parse::<usize>().ok()).unwrap_or(usize::MAX);
         match f[0] {
-            "av" | "am" | "ac" => vec![us(1)],
+            "av" | "am" | "ac" | "as" | "az" => vec![us(1)],
             "cl" | "sl" | "wp" | "xf" => vec![us(2)],
-            "dr" | "im" | "iv" | "fz" | "wr" | "ex" | "tr" | "ba" | "um" => vec![us(1)],
+            "dr" | "im" | "iv" | "fz" | "wr" | "ex" | "tr" | "ba" | "rs" | "mc" | "sf" | "ms" | "bm" | "um" => vec![us(1)],
+            "u2" => vec![us(1), us(2)],
             "if" => {
                 let mut v = vec![us(1)];
                 if let Some(d) = f.get(2) {
@@ -226,7 +337,7 @@ impl Exec {
                 if !(self.is_empty(d) && len <= cap) {
                     return None;
                 }
-                let mut m = MutableBuffer::with_capacity(cap);
+                let mut m = if seed % 2 == 0 { MutableBuffer::with_capacity(cap) } else { MutableBuffer::new(cap) };
                 m.extend_from_slice(&pattern(seed, len));
                 let r = self.new_rid();
                 self.slots[d] = Slot::Mut(m, r);
@@ -254,16 +365,35 @@ impl Exec {
                 if !self.is_empty(d) {
                     return None;
                 }
+                {
+                    let (orig, _) = self.buf(i)?;
+                    if !b.ptr_eq(orig) || b.data_ptr() != orig.data_ptr() || b.as_ptr() != orig.as_ptr() {
+                        self.oracle.push("a clone does not point at the same memory".into());
+                    }
+                }
                 self.slots[d] = Slot::Buf(b, r);
                 Some("ok")
             })(),
-            ("sl", 4) => (|| {
+            ("sl", 4 | 5) => (|| {
                 let (i, d, off, len) = (g(0)?, g(1)?, g(2)?, g(3)?);
+                let how = if n.len() > 4 { g(4)? } else { 0 };
                 let (b, r) = self.buf(i)?;
                 if !self.is_empty(d) {
                     return None;
                 }
-                match catch_unwind(AssertUnwindSafe(|| b.slice_with_length(off, len))) {
+                // entry points to the same O(1) view: slice_with_length, slice (to the end),
+                // clone + advance, byte-aligned bit_slice
+                let whole = b.len();
+                match catch_unwind(AssertUnwindSafe(|| match how {
+                    1 if off + len == whole => b.slice(off),
+                    2 if off + len <= whole => {
+                        let mut c = b.clone();
+                        c.advance(off);
+                        c.slice_with_length(0, len)
+                    }
+                    3 if off + len <= whole => b.bit_slice(8 * off, 8 * len),
+                    _ => b.slice_with_length(off, len),
+                })) {
                     Ok(nb) => {
                         self.slots[d] = Slot::Buf(nb, r);
                         Some("ok")
@@ -344,7 +474,18 @@ impl Exec {
                 let r = match self.slots.get_mut(i) {
                     Some(Slot::Mut(m, _)) => {
                         let c = m.capacity();
-                        m.extend_from_slice(&vec![(val % 256) as u8; k]);
+                        // entry points to the same growth rule: extend_from_slice, reserve + push,
+                        // extend_zeros
+                        match val % 3 {
+                            1 => {
+                                m.reserve(k);
+                                for _ in 0..k {
+                                    m.push((val % 256) as u8);
+                                }
+                            }
+                            2 if val % 256 == 0 => m.extend_zeros(k),
+                            _ => m.extend_from_slice(&vec![(val % 256) as u8; k]),
+                        }
                         realloc = m.capacity() != c;
                         Some("ok")
                     }
@@ -357,38 +498,70 @@ impl Exec {
             })(),
             ("tr", 2) => (|| {
                 let (i, len) = (g(0)?, g(1)?);
-                let mut drift: Option<(String, String)> = None;
-                let mut hit = false;
-                let r = match self.slots.get_mut(i) {
-                    Some(Slot::Mut(m, r)) => {
-                        hit = self.claimed[*r].is_some();
-                        let before = used_all(&self.pools);
-                        m.truncate(len);
-                        let after = used_all(&self.pools);
-                        if hit && after != before {
-                            // known finding: `truncate` resizes the reservation to `len` although
-                            // the capacity is unchanged.  Report it on its own (oracle), then
-                            // restore the capacity-based reservation so that the rest of the
-                            // history is still compared exactly against the model.
-                            drift = Some((before, after));
-                            m.claim(&self.pools[self.claimed[*r].unwrap()]);
-                        }
+                self.len_op(i, "tr", |m| m.truncate(len))
+            })(),
+            ("rs", 3) => (|| {
+                let (i, len, val) = (g(0)?, g(1)?, g(2)?);
+                self.len_op(i, "rs", |m| m.resize(len, (val % 256) as u8))
+            })(),
+            ("mc", 1) => (|| {
+                let i = g(0)?;
+                self.len_op(i, "mc", |m| m.clear())
+            })(),
+            ("ms", 1) => (|| {
+                let i = g(0)?;
+                self.len_op(i, "ms", |m| m.shrink_to_fit())
+            })(),
+            ("sf", 1) => (|| {
+                let i = g(0)?;
+                match self.slots.get_mut(i) {
+                    Some(Slot::Buf(b, _)) => {
+                        let c = b.capacity();
+                        b.shrink_to_fit();
+                        let shrunk = b.capacity() != c;
+                        self.tag(if shrunk { "sf:shrunk" } else { "sf:noop" });
                         Some("ok")
                     }
                     _ => None,
-                };
-                if hit {
-                    self.tag("tr:claimed");
                 }
-                if let Some((b, a)) = drift {
-                    self.oracle.push(format!(
-                        "KNOWN:finding:mutlen-claimed|MutableBuffer::truncate on a claimed buffer changed the pools' used() from {} to {} although its capacity is unchanged",
-                        b, a
-                    ));
-                }
-                r
             })(),
-            ("xf", _) if f.len() == 3 => (|| {
+            ("as", 3) => (|| {
+                let (d, len, seed) = (g(0)?, g(1)?, g(2)?);
+                if !self.is_empty(d) {
+                    return None;
+                }
+                let pat = pattern(seed, len);
+                let b = if seed % 2 == 0 { Buffer::from_slice_ref(&pat) } else { Buffer::from(&pat[..]) };
+                let r = self.new_rid();
+                self.slots[d] = Slot::Buf(b, r);
+                Some("ok")
+            })(),
+            ("az", 2) => (|| {
+                let (d, len) = (g(0)?, g(1)?);
+                if !self.is_empty(d) {
+                    return None;
+                }
+                let m = MutableBuffer::from_len_zeroed(len);
+                let r = self.new_rid();
+                self.slots[d] = Slot::Mut(m, r);
+                Some("ok")
+            })(),
+            ("rt", _) if f.len() >= 2 => (|| {
+                let srcs: Option<Vec<usize>> = f[1].split('+').map(|x| x.parse::<usize>().ok()).collect();
+                let srcs = srcs?;
+                let kind = f.get(2).and_then(|x| x.parse::<usize>().ok()).unwrap_or(0);
+                let mut bufs = vec![];
+                for i in &srcs {
+                    bufs.push(self.buf(*i)?.0.clone());
+                }
+                if bufs.is_empty() || !bufs.iter().all(|b| b.len() == bufs[0].len()) {
+                    return None;
+                }
+                self.round_trip(bufs, kind);
+                Some("ok")
+            })(),
+            ("xf", _) if f.len() == 3 || f.len() == 4 => (|| {
+                let how = f.get(3).and_then(|x| x.parse::<usize>().ok()).unwrap_or(0);
                 // export: slots `a` or `a+b` hold the (equally long) u8 columns of the array
                 let srcs: Option<Vec<usize>> = f[1].split('+').map(|x| x.parse::<usize>().ok()).collect();
                 let (srcs, d) = (srcs?, f[2].parse::<usize>().ok()?);
@@ -407,8 +580,13 @@ impl Exec {
                     Arc::new(StructArray::new(fields, cols, None))
                 };
                 let data = array.to_data();
-                let mut ffi = FFI_ArrowArray::new(&data);
-                let schema = FFI_ArrowSchema::try_from(data.data_type()).ok()?;
+                // two entry points: the struct constructors, or `arrow_array::ffi::to_ffi`
+                let (mut ffi, schema) = if how == 1 {
+                    self.tags.insert("xf:to_ffi".to_string());
+                    arrow_array::ffi::to_ffi(&data).ok()?
+                } else {
+                    (FFI_ArrowArray::new(&data), FFI_ArrowSchema::try_from(data.data_type()).ok()?)
+                };
                 drop(data);
                 drop(array);
                 // count invocations of the release callback
@@ -422,7 +600,8 @@ impl Exec {
                 self.slots[d] = Slot::Ffi(ffi, schema);
                 Some("ok")
             })(),
-            ("if", _) if f.len() == 3 => (|| {
+            ("if", _) if f.len() == 3 || f.len() == 4 => (|| {
+                let how = f.get(3).and_then(|x| x.parse::<usize>().ok()).unwrap_or(0);
                 let i = f[1].parse::<usize>().ok()?;
                 let dsts: Option<Vec<usize>> =
                     if f[2] == "-" { Some(vec![]) } else { f[2].split('+').map(|x| x.parse::<usize>().ok()).collect() };
@@ -438,8 +617,26 @@ impl Exec {
                 if dsts.len() != n_held || !dsts.iter().all(|d| self.is_empty(*d) && seen.insert(*d)) {
                     return None;
                 }
-                let Slot::Ffi(a, schema) = self.take(i) else { unreachable!() };
-                let data = unsafe { from_ffi(a, &schema) }.expect("from_ffi");
+                let Slot::Ffi(mut a, schema) = self.take(i) else { unreachable!() };
+                if a.is_released() || a.offset() != 0 || a.null_count() != 0 {
+                    self.oracle.push("exported struct: released / offset / null_count wrong before import".into());
+                }
+                if how == 1 {
+                    // move the struct out through a raw pointer (C consumers do this): the source
+                    // becomes an empty, released struct whose drop must not release anything
+                    let moved = unsafe { FFI_ArrowArray::from_raw(&mut a) };
+                    if !a.is_released() || moved.is_released() {
+                        self.oracle.push("FFI_ArrowArray::from_raw did not move the release callback".into());
+                    }
+                    drop(std::mem::replace(&mut a, moved));
+                }
+                let data = if how == 1 {
+                    self.tags.insert("if:and_data_type".to_string());
+                    let dt = DataType::try_from(&schema).expect("schema");
+                    unsafe { arrow_array::ffi::from_ffi_and_data_type(a, dt) }.expect("from_ffi_and_data_type")
+                } else {
+                    unsafe { from_ffi(a, &schema) }.expect("from_ffi")
+                };
                 drop(schema);
                 let bufs: Vec<Buffer> = if data.child_data().is_empty() {
                     vec![data.buffers()[0].clone()]
@@ -454,22 +651,125 @@ impl Exec {
                 self.tag("if:ok");
                 Some("ok")
             })(),
-            ("um", 2) => (|| {
+            ("um", 2 | 3) => (|| {
+                // how: 0 unary_mut, 1 try_unary_mut (never failing), 2 try_unary_mut failing on the
+                // last element (the partially updated builder is dropped: the array is gone)
                 let (i, delta) = (g(0)?, g(1)?);
+                let how = if n.len() > 2 { g(2)? } else { 0 };
                 self.buf(i)?;
                 let Slot::Buf(b, r) = self.take(i) else { unreachable!() };
                 let before = b.as_slice().to_vec();
-                let (res, out) = match u8_array(b).unary_mut(|x| x.wrapping_add((delta % 256) as u8)) {
-                    Ok(a) => (a, "ok"),
-                    Err(a) => (a, "no"),
+                let d = (delta % 256) as u8;
+                let arr = u8_array(b);
+                let (res, out) = match how {
+                    0 => match arr.unary_mut(|x| x.wrapping_add(d)) {
+                        Ok(a) => (a, "ok"),
+                        Err(a) => (a, "no"),
+                    },
+                    _ => match arr.try_unary_mut(|x| Ok::<u8, ()>(x.wrapping_add(d))) {
+                        Ok(Ok(a)) => (a, "ok"),
+                        Ok(Err(())) => unreachable!(),
+                        Err(a) => (a, "no"),
+                    },
                 };
+                if how == 2 && out == "no" {
+                    // a failing closure on a shared array must leave it untouched too
+                    let back = res.clone().try_unary_mut(|x| if x == 255 { Err(()) } else { Ok(x) });
+                    if let Err(a) = back {
+                        if a.values().inner().as_slice() != &before[..] {
+                            self.oracle.push("try_unary_mut declined but the array changed".into());
+                        }
+                    }
+                    self.tags.insert("um:try-err-probe".to_string());
+                }
                 let (_, vals, _) = res.into_parts();
                 let nb = vals.into_inner();
                 if out == "no" && nb.as_slice() != &before[..] {
                     self.oracle.push("unary_mut declined but the array changed".into());
                 }
-                self.slots[i] = Slot::Buf(nb, r);
-                self.tag(if out == "ok" { "um:inplace" } else { "um:declined" });
+                let nr = if out == "ok" { self.new_rid() } else { r };
+                self.slots[i] = Slot::Buf(nb, nr);
+                self.tag(&format!("um{}:{}", how.min(1), if out == "ok" { "inplace" } else { "declined" }));
+                Some(out)
+            })(),
+            ("bm", 2) => (|| {
+                let (i, j) = (g(0)?, g(1)?);
+                if i == j {
+                    return None;
+                }
+                let (bi, _) = self.buf(i)?;
+                let (bj, _) = self.buf(j)?;
+                if bi.is_empty() || bi.len() != bj.len() {
+                    return None;
+                }
+                let rhs = u8_array(bj.clone());
+                let Slot::Buf(b, r) = self.take(i) else { unreachable!() };
+                let before = b.as_slice().to_vec();
+                let (res, out) = match arrow_arith::arity::binary_mut(u8_array(b), &rhs, |x, y| x.wrapping_add(y)) {
+                    Ok(Ok(a)) => (a, "ok"),
+                    Ok(Err(_)) => unreachable!(),
+                    Err(a) => (a, "no"),
+                };
+                drop(rhs);
+                let (_, vals, _) = res.into_parts();
+                let nb = vals.into_inner();
+                if out == "no" && nb.as_slice() != &before[..] {
+                    self.oracle.push("binary_mut declined but the array changed".into());
+                }
+                let nr = if out == "ok" { self.new_rid() } else { r };
+                self.slots[i] = Slot::Buf(nb, nr);
+                self.tag(if out == "ok" { "bm:inplace" } else { "bm:declined" });
+                Some(out)
+            })(),
+            ("u2", 3) => (|| {
+                // unary_mut on an array WITH a validity buffer: values slot v, validity bits slot n
+                let (v, nn, delta) = (g(0)?, g(1)?, g(2)?);
+                if v == nn {
+                    return None;
+                }
+                let (bv, _) = self.buf(v)?;
+                let (bn, _) = self.buf(nn)?;
+                let len = bv.len();
+                if len == 0 || len > 8 * bn.len() {
+                    return None;
+                }
+                let Slot::Buf(bv, rv) = self.take(v) else { unreachable!() };
+                let Slot::Buf(bn, _) = self.take(nn) else { unreachable!() };
+                let before = bv.as_slice().to_vec();
+                let validity: Vec<bool> = BooleanBuffer::new(bn.clone(), 0, len).iter().collect();
+                let nulls = arrow_buffer::NullBuffer::new(BooleanBuffer::new(bn, 0, len));
+                let arr = PrimitiveArray::<UInt8Type>::new(ScalarBuffer::<u8>::from(bv), Some(nulls));
+                let d = (delta % 256) as u8;
+                let (res, out) = match arr.unary_mut(|x| x.wrapping_add(d)) {
+                    Ok(a) => (a, "ok"),
+                    Err(a) => (a, "no"),
+                };
+                let (_, vals, nulls) = res.into_parts();
+                let after: Vec<bool> = match &nulls {
+                    Some(nb) => nb.inner().iter().collect(),
+                    None => vec![true; len],
+                };
+                if after != validity {
+                    self.oracle.push("unary_mut changed the validity of an array".into());
+                }
+                drop(nulls);
+                let nb = vals.into_inner();
+                if out == "no" && nb.as_slice() != &before[..] {
+                    self.oracle.push("unary_mut (with nulls) declined but the values changed".into());
+                }
+                let nrv = if out == "ok" { self.new_rid() } else { rv };
+                self.slots[v] = Slot::Buf(nb, nrv);
+                // canonical validity: the `len` bits packed from bit 0 in a fresh buffer
+                let mut bytes = vec![0u8; (len + 7) / 8];
+                for (k, b) in validity.iter().enumerate() {
+                    if *b {
+                        bytes[k / 8] |= 1 << (k % 8);
+                    }
+                }
+                let nrn = self.new_rid();
+                self.slots[nn] = Slot::Buf(Buffer::from_vec(bytes), nrn);
+                self.tag(if validity.iter().all(|x| *x) { "u2:all-valid" } else { "u2:with-nulls" });
+                self.tag(if out == "ok" { "u2:inplace" } else { "u2:declined" });
                 Some(out)
             })(),
             ("cm", 1 | 2 | 3) => (|| {
@@ -512,23 +812,33 @@ impl Exec {
                 self.tag("cm");
                 Some("ok")
             })(),
-            ("wp", 4) => (|| {
+            ("wp", 4 | 5) => (|| {
                 let (i, d, off, len) = (g(0)?, g(1)?, g(2)?, g(3)?);
+                let how = if n.len() > 4 { g(4)? } else { 0 };
                 let (b, _) = self.buf(i)?;
                 if off + len > b.len() || !self.is_empty(d) {
                     return None;
                 }
                 let drops = Arc::new(AtomicUsize::new(0));
                 let ptr = NonNull::new(unsafe { b.as_ptr().add(off) } as *mut u8).unwrap();
-                let owner: Arc<dyn Allocation> = Arc::new(Holder { buf: b.clone(), drops: drops.clone() });
-                let nb = unsafe { Buffer::from_custom_allocation(ptr, len, owner) };
+                let nb = if how == 1 && len > 0 {
+                    // the owner is a `bytes::Bytes` that owns (a counting wrapper of) the buffer:
+                    // `From<bytes::Bytes> for Buffer`
+                    let by = bytes::Bytes::from_owner(HolderBytes(Holder { buf: b.clone(), drops: drops.clone() }));
+                    self.tags.insert("wp:bytes".to_string());
+                    Buffer::from(by.slice(off..off + len))
+                } else {
+                    let owner: Arc<dyn Allocation> = Arc::new(Holder { buf: b.clone(), drops: drops.clone() });
+                    unsafe { Buffer::from_custom_allocation(ptr, len, owner) }
+                };
                 self.owners.push(drops);
                 let r = self.new_rid();
                 self.slots[d] = Slot::Buf(nb, r);
                 Some("ok")
             })(),
-            ("ba", 5) => (|| {
+            ("ba", 5 | 6) => (|| {
                 let (i, j, boff, blen) = (g(0)?, g(1)?, g(3)?, g(4)?);
+                let how = if n.len() > 5 { g(5)? } else { 0 };
                 let opname = f[3];
                 if !matches!(opname, "a" | "o" | "x") || i == j {
                     return None;
@@ -547,10 +857,24 @@ impl Exec {
                 let old_ptr = b.as_ptr();
                 let old_len = b.len();
                 let mut lhs = BooleanBuffer::new(b, boff, blen);
-                match opname {
-                    "a" => lhs &= &rhs,
-                    "o" => lhs |= &rhs,
-                    _ => lhs ^= &rhs,
+                if how == 1 {
+                    // second entry point to the same gate: BooleanArray::bitwise_bin_op_mut_or_clone
+                    let la = arrow_array::BooleanArray::new(lhs, None);
+                    let ra = arrow_array::BooleanArray::new(rhs.clone(), None);
+                    let res = match opname {
+                        "a" => la.bitwise_bin_op_mut_or_clone(&ra, |x, y| x & y),
+                        "o" => la.bitwise_bin_op_mut_or_clone(&ra, |x, y| x | y),
+                        _ => la.bitwise_bin_op_mut_or_clone(&ra, |x, y| x ^ y),
+                    };
+                    drop(ra);
+                    lhs = res.into_parts().0;
+                    self.tags.insert("ba:via-boolean-array".to_string());
+                } else {
+                    match opname {
+                        "a" => lhs &= &rhs,
+                        "o" => lhs |= &rhs,
+                        _ => lhs ^= &rhs,
+                    }
                 }
                 drop(rhs);
                 let in_place = lhs.inner().as_ptr() == old_ptr && lhs.offset() == boff && lhs.inner().len() == old_len;
@@ -632,6 +956,12 @@ fn run_hist(nslots: usize, ops: &str) -> (String, String, Vec<String>) {
             }
             snaps[i] = now;
         }
+        // oracle: the pool's other accessors agree with used()
+        for p in &ex.pools {
+            if p.allocated() != p.used() || p.available() != isize::MAX - p.used() as isize || p.capacity() != usize::MAX {
+                ex.oracle.push(format!("step {} ({}): pool accessors disagree with used()", k, tok));
+            }
+        }
         // oracle 2: no owner dropped twice
         if ndrops.iter().any(|c| *c > 1) {
             ex.oracle.push(format!("step {} ({}): an owner was dropped more than once", k, tok));
@@ -695,6 +1025,25 @@ fn gen_hist(rng: &mut Rng) -> String {
         let lens = [0usize, 1, 3, 8, 9, 16, 24, 40, 64, 65];
         let tok = loop {
             let r = rng.below(100);
+            // constructors / capacity operations / round trips added by the coverage audit
+            if rng.chance(1, 6) {
+                match rng.below(7) {
+                    0 if !empties.is_empty() => break format!("as:{}:{}:{}", rng.pick(&empties), rng.pick(&lens), rng.usize(256)),
+                    1 if !empties.is_empty() => break format!("az:{}:{}", rng.pick(&empties), rng.pick(&lens)),
+                    2 if !muts.is_empty() => {
+                        let i = *rng.pick(&muts);
+                        let len = match &ex.slots[i] {
+                            Slot::Mut(m, _) => m.len(),
+                            _ => 0,
+                        };
+                        break format!("rs:{}:{}:{}", i, *rng.pick(&[0usize, len.saturating_sub(1), len, len + 1, 63, 64, 65, 129, 300]), rng.usize(256));
+                    }
+                    3 if !muts.is_empty() => break format!("{}:{}", rng.pick(&["mc", "ms", "ms"]), rng.pick(&muts)),
+                    4 | 5 if !bufs.is_empty() => break format!("sf:{}", rng.pick(&bufs)),
+                    6 if !bufs.is_empty() => break format!("rt:{}:{}", rng.pick(&bufs), rng.usize(RT_KINDS)),
+                    _ => {}
+                }
+            }
             // array level: export / import / unary_mut take a third of the steps
             if rng.chance(1, 3) {
                 match rng.below(4) {
@@ -704,9 +1053,9 @@ fn gen_hist(rng: &mut Rng) -> String {
                         let la = ex.buf(a).unwrap().0.len();
                         let same: Vec<usize> = bufs.iter().copied().filter(|b| ex.buf(*b).unwrap().0.len() == la).collect();
                         if rng.bool() && same.len() >= 1 {
-                            break format!("xf:{}+{}:{}", a, rng.pick(&same), d);
+                            break format!("xf:{}+{}:{}:{}", a, rng.pick(&same), d, rng.usize(2));
                         }
-                        break format!("xf:{}:{}", a, d);
+                        break format!("xf:{}:{}:{}", a, d, rng.usize(2));
                     }
                     1 if !ffis.is_empty() => {
                         let i = *rng.pick(&ffis);
@@ -720,12 +1069,24 @@ fn gen_hist(rng: &mut Rng) -> String {
                             for _ in 0..k {
                                 ds.push(e.remove(rng.usize(e.len())).to_string());
                             }
-                            break format!("if:{}:{}", i, ds.join("+"));
+                            break format!("if:{}:{}:{}", i, ds.join("+"), rng.usize(2));
                         }
                         break format!("dr:{}", i);
                     }
                     2 if !ffis.is_empty() && rng.chance(1, 3) => break format!("dr:{}", rng.pick(&ffis)),
-                    _ if !bufs.is_empty() => break format!("um:{}:{}", rng.pick(&bufs), 1 + rng.usize(255)),
+                    3 if bufs.len() >= 2 && rng.bool() => {
+                        let a = *rng.pick(&bufs);
+                        let la = ex.buf(a).unwrap().0.len();
+                        let same: Vec<usize> = bufs.iter().copied().filter(|b| *b != a && ex.buf(*b).unwrap().0.len() == la).collect();
+                        let big: Vec<usize> = bufs.iter().copied().filter(|b| *b != a && 8 * ex.buf(*b).unwrap().0.len() >= la).collect();
+                        if la > 0 && !same.is_empty() && rng.bool() {
+                            break format!("bm:{}:{}", a, rng.pick(&same));
+                        }
+                        if la > 0 && !big.is_empty() {
+                            break format!("u2:{}:{}:{}", a, rng.pick(&big), 1 + rng.usize(255));
+                        }
+                    }
+                    _ if !bufs.is_empty() => break format!("um:{}:{}:{}", rng.pick(&bufs), 1 + rng.usize(255), rng.usize(3)),
                     _ => {}
                 }
             }
@@ -758,11 +1119,11 @@ fn gen_hist(rng: &mut Rng) -> String {
                         // offsets biased to 0 (keeps into_mutable possible) and to the ends
                         let off = if rng.bool() { 0 } else { rng.usize(len + 1) };
                         let l = if rng.chance(1, 12) { len + 1 } else { rng.usize(len - off + 1) };
-                        format!("sl:{}:{}:{}:{}", i, d, off, l)
+                        format!("sl:{}:{}:{}:{}:{}", i, d, off, l, rng.usize(4))
                     }
                     2 => {
                         let off = rng.usize(len + 1);
-                        format!("wp:{}:{}:{}:{}", i, d, off, rng.usize(len - off + 1))
+                        format!("wp:{}:{}:{}:{}:{}", i, d, off, rng.usize(len - off + 1), rng.usize(2))
                     }
                     _ => format!("cl:{}:{}", i, d),
                 };
@@ -821,7 +1182,7 @@ fn gen_hist(rng: &mut Rng) -> String {
                 let (li, lj) = (ex.buf(i).unwrap().0.len(), ex.buf(j).unwrap().0.len());
                 let boff = if rng.bool() { 0 } else { rng.usize(8 * li + 1) };
                 let blen = rng.usize((8 * li - boff).min(8 * lj) + 1);
-                break format!("ba:{}:{}:{}:{}:{}", i, j, rng.pick(&["a", "o", "x"]), boff, blen);
+                break format!("ba:{}:{}:{}:{}:{}:{}", i, j, rng.pick(&["a", "o", "x"]), boff, blen, rng.usize(2));
             }
             if bufs.is_empty() && muts.is_empty() && !ffis.is_empty() && (empties.is_empty() || rng.bool()) {
                 break format!("dr:{}", rng.pick(&ffis));
@@ -831,6 +1192,94 @@ fn gen_hist(rng: &mut Rng) -> String {
         toks.push(tok);
     }
     format!("C16 ahist {} {}", n, toks.join(";"))
+}
+
+/// A fixed, deterministic block of boundary histories run in EVERY generation (a corpus
+/// generated in code): every allocation kind × every sharing situation × every conversion /
+/// in-place entry point, followed by re-claims into another pool and by dropping everything;
+/// plus capacity arithmetic on the 64-byte boundaries and `into_vec` element-size boundaries.
+const HIST: &str = "ahist";
+const BLOCK_OPS: [(&str, &str); 9] = [
+    ("unary_mut", "um:0:5:0"),
+    ("try_unary_mut", "um:0:5:1"),
+    ("try_unary_mut-err", "um:0:5:2"),
+    ("binary_mut", "sl:3:2:0:0:0;dr:2;bm:0:3"),
+    ("unary_mut-nulls", "u2:0:3:9"),
+    ("nulls-shared", "cl:3:2;u2:0:3:9;dr:2"),
+    ("export-import", "xf:0:2:1;dr:0;if:2:0:1"),
+    ("bool-array-assign", "ba:0:3:x:3:7:1"),
+    ("into_mutable", "im:0;fz:0"),
+];
+fn block_cases() -> Vec<String> {
+    let mut out = vec![];
+    let allocs: [(&str, &str); 8] = [
+        ("vec1", "av:0:16:16:1:5"),
+        ("vec1cap", "av:0:8:24:1:9"),
+        ("vec4", "av:0:16:16:4:3"),
+        ("vec8cap", "av:0:8:32:8:1"),
+        ("slice_ref", "as:0:10:7"),
+        ("mutable", "am:0:3:100:11;fz:0"),
+        ("zeroed", "az:0:64;fz:0"),
+        ("custom", "ac:0:16:2"),
+    ];
+    let sharing: [(&str, &str); 8] = [
+        ("unique", ""),
+        ("cloned", "cl:0:1"),
+        ("clone-dropped", "cl:0:1;dr:1"),
+        ("prefix", "sl:0:1:0:3:0;dr:0;cl:1:0;dr:1"),
+        ("offset", "sl:0:1:1:2:2;dr:0;cl:1:0;dr:1"),
+        ("empty-tail", "sl:0:1:3:0:0;dr:0;cl:1:0;dr:1"),
+        ("wrapped", "wp:0:1:1:2:0"),
+        ("wrapper-dropped", "wp:0:1:0:2:1;dr:1"),
+    ];
+    let ops: Vec<(&str, &str)> = BLOCK_OPS.to_vec();
+    for (an, a) in allocs.iter() {
+        for (sn, sh) in sharing.iter() {
+            for (on, o) in ops.iter() {
+                // slot 3: an operand for the binary ops; pool 0 claim first, pool 1 re-claim after
+                let mut h = vec![a.to_string(), "av:3:16:16:1:77".to_string()];
+                if !sh.is_empty() {
+                    h.push(sh.to_string());
+                }
+                h.push("cm:0:0:0".into());
+                h.push(o.to_string());
+                h.push("cm:0:1:0;cm:3:2:1;cm:0:2:0".into());
+                h.push("dr:0;dr:1;dr:2;dr:3".into());
+                out.push(format!("C16 {} 4 {}\tblk:{}:{}:{}", HIST, h.join(";"), an, sn, on));
+            }
+        }
+    }
+    // capacity arithmetic on the rounding / doubling boundaries, claimed throughout
+    for len in [0usize, 1, 63, 64, 65, 127, 128, 129] {
+        for cap_extra in [0usize, 1, 64] {
+            let cap = len + cap_extra;
+            let cap64 = (cap + 63) / 64 * 64;
+            for n in [0usize, 1, cap64 - len, cap64 - len + 1, 2 * cap64 + 1] {
+                out.push(format!(
+                    "C16 {} 2 am:0:{}:{}:1;cm:0:0;ex:0:{}:7;cm:0:1;ms:0;ex:0:1:9;ms:0;fz:0;sf:0;cl:0:1;sf:0;dr:1;sf:0;cm:0:2;im:0;ms:0;dr:0\tblk:cap:{}:{}:{}",
+                    HIST, len, cap, n, len, cap_extra, n
+                ));
+            }
+            for to in [0usize, len.saturating_sub(1), len, len + 1, 64, 65] {
+                out.push(format!(
+                    "C16 {} 2 am:0:{}:{}:3;rs:0:{}:5;cm:0:1;rs:0:{}:6;mc:0;ms:0;fz:0;sf:0;dr:0\tblk:resize:{}:{}:{}",
+                    HIST, len, cap, to, len, len, cap_extra, to
+                ));
+            }
+        }
+    }
+    // into_vec: element size × length that is / is not a multiple of it × capacity
+    for t in [1usize, 2, 4, 8] {
+        for t2 in [1usize, 2, 4, 8] {
+            for k in [0usize, 1, t, t + 1, 2 * t] {
+                out.push(format!(
+                    "C16 {} 3 av:0:{}:{}:{}:4;sl:0:1:0:{}:0;iv:1:{};dr:0;iv:1:{};cm:1:0;iv:1:{};sf:1;dr:1\tblk:intovec:{}:{}:{}",
+                    HIST, 2 * t, 4 * t, t, k, t2, t2, t, t, t2, k
+                ));
+            }
+        }
+    }
+    out
 }
 
 fn main() {
@@ -859,6 +1308,11 @@ fn main() {
     } else {
         let mut rng = Rng::new(args.seed ^ 0xC16A);
         let n = n_cases(&args, 3000, 100000);
+        for c in block_cases() {
+            let (line, tag) = c.split_once('\t').unwrap();
+            let group = tag.split(':').take(2).collect::<Vec<_>>().join(":");
+            emit(&mut sink, line.to_string(), &format!("{} {}", tag, group));
+        }
         for _ in 0..n {
             let line = gen_hist(&mut rng);
             emit(&mut sink, line, "");
